@@ -747,10 +747,13 @@ pub open spec fn strictly_increasing(s: Seq<u32>) -> bool { forall|i: int, j: in
 /// level k: receiver triple, staging file and sender all keyed by zooms[k]; the triple's writer and the staging
 /// file are the two halves of one file; the triple's receiver and the map's sender are the two ends of one channel
 /// whose capacity is `cap` and that is still empty
-pub open spec fn level_built(rc: (u32, Mailbox<ZMsg>, LevelFile), f: (u32, StageBuf<OutFile>), m: Map<u32, ZSender<ZMsg>>, size: u32, cap: int) -> bool {
+pub open spec fn level_built(rc: (u32, Mailbox<ZMsg>, LevelFile), f: (u32, StageBuf<OutFile>), m: Map<u32, ZSender<ZMsg>>, size: u32) -> bool {
     &&& rc.0 == size && f.0 == size && m.dom().contains(size)
     &&& f.1.cid() == rc.2.cid() && f.1.dest() is None
-    &&& m[size].cid() == rc.1.cid() && m[size].capacity() == cap && m[size].sent().len() == 0
+    &&& m[size].cid() == rc.1.cid()
+}
+pub open spec fn chan_fresh(m: Map<u32, ZSender<ZMsg>>, size: u32, cap: int) -> bool {
+    m.dom().contains(size) && m[size].capacity() == cap && m[size].sent().len() == 0
 }
 
 // Carve-out: from `let mut zoom_receivers = ..` to the closing brace of the construction loop.
@@ -762,7 +765,7 @@ fn build_levels(zooms: &Vec<u32>, options: &BBIWriteOptions, chrom_ids: &StrMap)
     ensures
         
         r.0@.len() == zooms@.len() && r.1@.len() == zooms@.len(),
-        forall|k: int| 0 <= k < zooms@.len() ==> level_built(#[trigger] r.0@[k], r.1@[k], r.2@, zooms@[k], chrom_ids.count() as int),
+        forall|k: int| 0 <= k < zooms@.len() ==> level_built(#[trigger] r.0@[k], r.1@[k], r.2@, zooms@[k]),
         
         forall|x: u32| r.2@.dom().contains(x) <==> zooms@.contains(x),
         
@@ -771,14 +774,21 @@ fn build_levels(zooms: &Vec<u32>, options: &BBIWriteOptions, chrom_ids: &StrMap)
     let mut zoom_receivers = Vec::with_capacity(zooms.len());
     let mut zoom_files = Vec::with_capacity(zooms.len());
     let mut zooms_map: SMap = SMap::new();
-    for j__ in 0..zooms.len() 
+    let mut j__: usize = 0;
+    while j__ < zooms.len() 
         invariant
             
-            zoom_receivers@.len() == j__, zoom_files@.len() == j__,
-            forall|k: int| 0 <= k < j__ ==> level_built(#[trigger] zoom_receivers@[k], zoom_files@[k], zooms_map@, zooms@[k], chrom_ids.count() as int),
+            j__ <= zooms@.len(), zoom_receivers@.len() == j__, zoom_files@.len() == j__,
+            forall|k: int| 0 <= k < j__ ==> level_built(#[trigger] zoom_receivers@[k], zoom_files@[k], zooms_map@, zooms@[k]),
+            
+            forall|k: int| 0 <= k < j__ ==> chan_fresh(zooms_map@, #[trigger] zooms@[k], chrom_ids.count() as int),
             
             forall|x: u32| zooms_map@.dom().contains(x) <==> (exists|k: int| 0 <= k < j__ && zooms@[k] == x),
-{ let size = zooms[j__];
+        decreases
+            
+            zooms@.len() - j__,
+{
+        let size = zooms[j__]; j__ = j__ + 1;
         let (buf, write) = level_staging_new(options.inmemory);
         let (sender, receiver) = channel(chrom_ids.len());
         zoom_receivers.push((size, receiver, write));
@@ -794,7 +804,7 @@ fn build_levels(zooms: &Vec<u32>, options: &BBIWriteOptions, chrom_ids: &StrMap)
         
         assert forall|x: u32| zooms_map@.dom().contains(x) implies (#[trigger] zooms_map@[x]).capacity() == chrom_ids.count() as int && zooms_map@[x].sent().len() == 0 by {
             let k = choose|k: int| 0 <= k < zooms@.len() && zooms@[k] == x;
-            assert(level_built(zoom_receivers@[k], zoom_files@[k], zooms_map@, zooms@[k], chrom_ids.count() as int));
+            assert(chan_fresh(zooms_map@, zooms@[k], chrom_ids.count() as int));
         }
     }
     (zoom_receivers, zoom_files, zooms_map)
